@@ -96,6 +96,8 @@ type Frame struct {
 	curLoop   *loopInfo
 	depth     int
 	edgeReach map[edgeKey]string
+	frameT    map[string][]modTarget
+	loopHavoc map[*ssa.BasicBlock][]string
 }
 
 type rangeInfo struct {
@@ -541,6 +543,14 @@ func (e *Exec) newFrame(fn *ssa.Function, top bool) *Frame {
 			if a, ok := in.(*ssa.Alloc); ok && a.Comment != "" {
 				if _, dup := fr.locals[a.Comment]; !dup {
 					fr.locals[a.Comment] = a
+				} else if a.Comment == "rangeindex" {
+					for k := 2; k < 10; k++ {
+						nm := fmt.Sprintf("rangeindex_%d", k)
+						if _, dup := fr.locals[nm]; !dup {
+							fr.locals[nm] = a
+							break
+						}
+					}
 				}
 			}
 		}
@@ -874,6 +884,35 @@ func (e *Exec) checkInvariants(fr *Frame, st *State, ord int, phase string, hdr 
 		f := e.specBool(env, c)
 		e.sc.oblig(st.reach, f, fmt.Sprintf("%s#inv-%s.%s", e.unit, phase, c.Label), "inv", fmt.Sprintf("loop invariant %s: %s", phase, c.Text), fmt.Sprintf("%s:%d", c.File, c.Line))
 	}
+	for _, ai := range e.autoInvs(fr, st, hdr, ord) {
+		e.sc.oblig(st.reach, ai.f, fmt.Sprintf("%s#inv-%s.loop%d.%s", e.unit, phase, ord, ai.label), "inv", fmt.Sprintf("automatic loop invariant %s: %s", phase, ai.what), e.pos(hdr.Instrs[0].Pos()))
+	}
+}
+
+type autoInv struct {
+	label, what, f string
+}
+
+// autoInvs: invariants every loop gets without annotation:
+//   - the hidden index of a range-over-slice loop stays >= -1
+//   - the function's own frame condition for every heap map the loop may write
+func (e *Exec) autoInvs(fr *Frame, st *State, hdr *ssa.BasicBlock, ord int) []autoInv {
+	var out []autoInv
+	if len(hdr.Instrs) > 0 {
+		if u, ok := hdr.Instrs[0].(*ssa.UnOp); ok {
+			if a, ok := u.X.(*ssa.Alloc); ok && a.Comment == "rangeindex" {
+				if v, ok := fr.regs[a]; ok && v.Loc != nil {
+					out = append(out, autoInv{"rangeindex", "range index >= -1", "(>= " + e.load(st, v.Loc) + " (- 1))"})
+				}
+			}
+		}
+	}
+	for _, h := range fr.loopHavoc[hdr] {
+		if f, ok := e.frameFormula(fr, st, h); ok {
+			out = append(out, autoInv{"frame." + h, "frame of " + h + " (modifies clause) holds throughout the loop", f})
+		}
+	}
+	return out
 }
 
 func (fr *Frame) loopRange(hdr *ssa.BasicBlock) *rangeInfo {
@@ -893,9 +932,15 @@ func (e *Exec) enterLoop(fr *Frame, st *State, hdr *ssa.BasicBlock, ord int, bod
 		// nothing is assumed. Note it.
 		e.sc.uncontracted[fmt.Sprintf("loop %d of %s has no invariant (havoc only)", ord, fr.fn.Name())] = true
 	}
-	e.checkInvariants(fr, st, ord, "entry", hdr)
-	// havoc
+	// havoc set first: the automatic frame invariants range over it
 	ws, all := e.writeSet(fr, body)
+	if fr.loopHavoc == nil {
+		fr.loopHavoc = map[*ssa.BasicBlock][]string{}
+	}
+	if !all {
+		fr.loopHavoc[hdr] = ws
+	}
+	e.checkInvariants(fr, st, ord, "entry", hdr)
 	ns := st.clone()
 	if all {
 		ns.heap = map[string]string{}
@@ -940,6 +985,9 @@ func (e *Exec) enterLoop(fr *Frame, st *State, hdr *ssa.BasicBlock, ord int, bod
 	}
 	for _, c := range invs {
 		e.sc.assume(ns.reach, e.specBool(env, c))
+	}
+	for _, ai := range e.autoInvs(fr, ns, hdr, ord) {
+		e.sc.assume(ns.reach, ai.f)
 	}
 	return ns
 }
